@@ -790,7 +790,10 @@ impl<'a> Model<'a> {
         }
         let boxes: Vec<BoxF> = dets.iter().map(|d| d.b.clone()).collect();
         let kf_missing = matches!(self.cfg.metric, PosMetric::Maha) && cand.iter().any(|t| t.kf.is_none());
-        if dets.len() > 7 || cand.len() > 9 || kf_missing {
+        // calls of any size: the exact optimum is computed per connected component of open pairs
+        // (each capped at 7 detections x 9 tracks); only an over-sized component makes the step
+        // ambiguous. Very large calls are still skipped to bound the cost of the matrix itself.
+        if dets.len() > 120 || cand.len() > 400 || kf_missing {
             self.stats.ambiguous_steps += 1;
             if self.stats.first_ambiguous_op.is_none() {
                 self.stats.first_ambiguous_op = Some(opi);
@@ -798,7 +801,13 @@ impl<'a> Model<'a> {
             return;
         }
         let m = build_matrix(self.cfg, &boxes, &cand, true);
-        let v = analyse(&m, cand.len());
+        let Some(v) = analyse_components(&m, cand.len(), 7, 9) else {
+            self.stats.ambiguous_steps += 1;
+            if self.stats.first_ambiguous_op.is_none() {
+                self.stats.first_ambiguous_op = Some(opi);
+            }
+            return;
+        };
         if v.ambiguous {
             self.stats.ambiguous_steps += 1;
             if self.stats.first_ambiguous_op.is_none() {
@@ -852,8 +861,9 @@ impl<'a> Model<'a> {
             let at = total_of(&m, &actual);
             // was a table-admitted pair refused, or is it a plain assignment error?
             let m_free = build_matrix(self.cfg, &boxes, &cand, false);
-            let v_free = analyse(&m_free, cand.len());
-            let table_matters = self.cfg.constraints.is_some() && v_free.best != v.best;
+            let v_free = analyse_components(&m_free, cand.len(), 7, 9);
+            let table_matters = self.cfg.constraints.is_some() && v_free.as_ref().map(|f| f.best != v.best).unwrap_or(false);
+            let v_free_best = v_free.map(|f| f.best).unwrap_or_default();
             // ... or was an admitted pair refused in a way that a row configured for ANOTHER gap
             // explains (the pair the reference continues is within its own limit but beyond the
             // limit of some other row)? Then the table lookup picked the wrong row: C20.
@@ -871,7 +881,7 @@ impl<'a> Model<'a> {
                     })
                 })
                 .unwrap_or(false);
-            let (p, clause, detail) = if table_matters && actual == v_free.best {
+            let (p, clause, detail) = if table_matters && actual == v_free_best {
                 ("C20", "table-ignored", "assignment-as-if-unconstrained")
             } else if wrong_row {
                 ("C20", "pair-refused-within-limit", "another-rows-limit-would-explain-it")
